@@ -37,7 +37,7 @@ var defects = []string{"import-cycle", "import-self", "include-cycle", "typedef-
 	"dangling-uses-augment-absolute", "illegal-config-in-remote-grouping", "illegal-default-in-remote-grouping",
 	"dangling-unique-last", "dangling-unique-inner", "dangling-unique-skips-choice", "dangling-unique-via-list", "dangling-unique-non-leaf",
 	"odd-extension-prefix", "odd-extension-name", "illegal-grouping-uses-deprecated-grouping", "include-self", "dangling-import-include-chain", "illegal-xpath-prefix-twin",
-	"odd-feature-chain-into-other-module"}
+	"odd-feature-chain-into-other-module", "odd-first-use-of-missing-module-when-built"}
 
 func str(s string) *sg.TypeSpec { return &sg.TypeSpec{Name: s} }
 
@@ -201,6 +201,21 @@ func inject(mods []*sg.Mod, d string, pick func(n int) int) {
 		m.Features = append(m.Features, &sg.Feature{Name: "cyc-fa", IfFeatures: []string{ref("cyc-fa")}})
 	case "dangling-import":
 		m.Imports = append(m.Imports, sg.Import{Mod: "no-such-module", Prefix: "nsm"})
+	case "odd-first-use-of-missing-module-when-built":
+		// the prefix of a module that is not loaded is used only where the schema nodes are built (the type of a leaf,
+		// an if-feature of a node, the base of an identityref), not by anything that is expanded before: refused, or
+		// (tolerant mode) the same set of modules and nodes on every run
+		host.Imports = append(host.Imports, sg.Import{Mod: "no-such-module", Prefix: "nsm"})
+		lf := &sg.Node{Kind: "leaf", Name: "dang-leaf", Type: str("string")}
+		switch pick(3) {
+		case 0:
+			lf.Type = str("nsm:some-type")
+		case 1:
+			lf.IfFeatures = []string{"nsm:some-feature"}
+		default:
+			lf.Type = &sg.TypeSpec{Name: "identityref", Base: "nsm:some-identity"}
+		}
+		host.Nodes[0].Kids = append(host.Nodes[0].Kids, lf)
 	case "dangling-include":
 		m.Includes = append(m.Includes, "no-such-submodule")
 	case "dangling-type":
@@ -400,7 +415,7 @@ func genCase(t *rapid.T) Case {
 	if g.Chance(2, 5, "defect") {
 		c.Defect = defects[g.Pick(len(defects), "which")]
 		inject(c.Mods, c.Defect, func(n int) int { return g.Pick(n, "where") })
-		if c.Defect == "odd-feature-chain-into-other-module" && g.Chance(3, 4, "tolerant") {
+		if strings.HasPrefix(c.Defect, "odd-f") && g.Chance(3, 4, "tolerant") {
 			c.SkipUnknown = true
 		}
 	} else if g.Chance(1, 2, "mutate") {
